@@ -112,6 +112,8 @@ var guardTable = []guardRow{
 	{Func: "transform.GetExtendedSpatialIdsWithinRadiusOfLine", Class: "Z35", Param: 4, Props: "C14 C15", Doc: "vZoom outside 0-35"},
 	{Func: "transform.FitClearanceAroundExtendedSpatialID", Class: "NONNEGF", Param: 1, Props: "C14 C15", Doc: "negative clearance is an error"},
 	{Func: "transform.FitClearanceAroundExtendedSpatialID", Class: "ARITY5", Param: 0, Props: "C14 C15", Doc: "malformed extended ID"},
+	{Func: "transform.FitClearanceAroundExtendedSpatialID", Class: "INT", Param: 0, Props: "C14 C15", Doc: "non-integer field (also with clearance 0)"},
+	{Func: "transform.ConvertAltitudekeyToMinMaxZ", Class: "NONNEG", Param: 0, Props: "C12 C13 C15", Doc: "altitude keys are unsigned: a negative key does not exist at any zoom"},
 	// object
 	{Func: "common/object.NewPoint", Class: "LON", Param: 0, Props: "C15", Doc: "|lon| > 180 is an input error"},
 	{Func: "common/object.(*Point).SetLon", Class: "LON", Param: 1, Props: "C15", Doc: "|lon| > 180 is an input error"},
@@ -482,6 +484,7 @@ func (t *taintEngine) compute(v ssa.Value) bool {
 // with the failing edge leading to failure returns only; a discarded error is
 // accepted only if the same argument is INT-guarded by delegation.
 func ruleErrUsed(w *World, r *Report, in map[*ssa.Function]bool) {
+	r.Rule("PARSE-BASE", "every strconv.ParseInt applied to caller text uses the constant base 10")
 	r.Rule("ERRUSED", "the error of every strconv.Atoi/ParseInt/ParseFloat applied to text derived from a caller's string is tested and its non-nil edge leads only to failure returns; an error that is discarded or overwritten before being read is a violation unless the same argument always fails in a validating callee under the parse-failure scenario")
 	t := taintFor(w)
 	e := scFor(w)
@@ -506,6 +509,13 @@ func ruleErrUsed(w *World, r *Report, in map[*ssa.Function]bool) {
 			ord++
 			key := fmt.Sprintf("ERRUSED / %s / parse#%d", name, ord)
 			pos := w.Pos(c.Pos())
+			if calleeIs(c, "strconv", "ParseInt") && len(c.Call.Args) >= 2 {
+				if b, ok := constInt(c.Call.Args[1]); !ok || b != 10 {
+					r.Add(Obligation{Rule: "PARSE-BASE", Key: fmt.Sprintf("PARSE-BASE / %s / parse#%d", name, ord), Pos: pos, Status: Violated, Detail: "ID fields are decimal integers: strconv.ParseInt must be called with base 10 (base 0 accepts 0x.., 0b.., 0o.. and underscores) -- " + shortInstr(c), Canary: can})
+				} else {
+					r.Add(Obligation{Rule: "PARSE-BASE", Key: fmt.Sprintf("PARSE-BASE / %s / parse#%d", name, ord), Pos: pos, Status: Discharged, Detail: "base 10", Canary: can})
+				}
+			}
 			ee := extractOf(c, 1)
 			if ee != nil && hasRealReferrer(ee) {
 				// tested?
